@@ -15,6 +15,7 @@ Driver ops of C14.
       request, conc = concurrent — do not enter the model's answer; the mode only selects how
       much of the per-request result the harness can observe)
   srv - <proto> <gomaxprocs> <timing> <split> <conn>;<conn>;…   connections of the real simple server
+  eph - <proto> <simple|http> <seq|conc> <conn>;<conn>;…   handlers using ephemeral properties
   frm <maxLen> <chunk hex>,<chunk hex>,…   the framed reader fed a chunked byte stream
   cw <k> <g>:<len>,<g>:<len>,…         a recorded trace of Write calls on the shared output
       of k concurrent goroutines, replayed through `step` (lock before a goroutine's first
@@ -136,6 +137,21 @@ def stepProcessor (op : String) (args : List String) : Option String :=
     let st := srvRun stdProcMap (cs.map ConnSt.init)
       ((List.range cs.length).flatMap fun i => List.replicate ((cs[i]?.map List.length).getD 0) i)
     pure (" ; ".intercalate (st.map fun c => showProcessed "sock" true c.out))
+  | "eph", [_, _proto, server, _mode, conns] => do
+    -- handlers that use the FContext's ephemeral properties: req = <op id hex>/<key hex>/<value hex>.
+    -- server = simple: one map per connection (shared by its requests); http: one map per request
+    let parse (t : String) : Option (Bytes × EphScript) :=
+      match t.splitOn "/" with
+      | [o, k, v] => do pure (← unhex o, ⟨← unhex k, ← unhex v⟩)
+      | _ => none
+    let cs ← (conns.splitOn ";").mapM fun c => if c == "." then some [] else (c.splitOn ",").mapM parse
+    let showO (o : Option Bytes) : String := match o with | some b => hexOf b | none => "none"
+    let showReq (x : Bytes × EphScript) (ob : EphObs) : String :=
+      s!"{hexOf x.1}:entry={showO ob.entry},back={showO ob.back},n={ob.count},own={hexOf x.2.val}"
+    let showConn (c : List (Bytes × EphScript)) : String :=
+      let obs := if server == "http" then c.map (fun x => (ephRequest [] x.2).1) else (ephProtocol [] (c.map (·.2))).1
+      if c.isEmpty then "." else "|".intercalate ((c.zip obs).map fun (x, ob) => showReq x ob)
+    pure (" ; ".intercalate (cs.map showConn))
   | "frm", [maxLen, chunks] => do
     let maxLen ← maxLen.toNat?
     let cs ← if chunks == "." then some [] else (chunks.splitOn ",").mapM unhex
